@@ -15,6 +15,10 @@
 (*   {"ev":"dbegin","c":c,"t":ms, ...}  a completion began (in-flight decremented, time t read) *)
 (*   {"ev":"dend","c":c,"code":..,"lat":us,"t":ms (the time read at dbegin), ...} its update applied *)
 (*   {"ev":"state","t":ms,"picks":[..],"dones":[..],"lmin":[..],"lmax":[..],"seen":[..], ...same} *)
+(*   {"ev":"fault","op":"pick"|"done","kind":"never-returns"|"panics","p":k,"c":c,"pending":m,"t":ms,"note":.., ...same} *)
+(*        the operation was invoked and did not return: it was still blocked when every goroutine of the *)
+(*        process had been blocked for seconds (or for two minutes without progress), or it panicked;   *)
+(*        pending = the recorder's count of calls of c picked and not completed (c = 0 for a pick)      *)
 (* infl/succ/lag (length N) are the projection of the event's picker read  *)
 (* after the operation; only the entries of the picker's ready connections *)
 (* are compared (c = 0: the pick returned something that is no connection  *)
@@ -107,6 +111,9 @@ BeginWhy(e) ==
   IF BeginFails(c, e.t) # {} THEN BeginFails(c, e.t)
   ELSE IF ProjOK(e, BeginPost(c).infl, succ, lag) THEN {} ELSE {"done-effect"}
 
+\* an operation that was invoked and did not return is never a step (P2C.tla: every operation returns)
+FaultWhy(e) == FaultFails(e.op, e.kind, e.c, e.pending)
+
 \* quiescent state after a concurrent run, judged by the invariants of P2C.tla on the logged state
 StateWhy(e) ==
   (IF \A c \in ready : e.infl[c] = e.picks[c] - e.dones[c] /\ e.infl[c] >= 0 THEN {} ELSE {"inflight"})
@@ -162,6 +169,7 @@ TStep ==
     [] e.ev = "dend" /\ ~skip ->
          LET why == DoneWhy(e) IN
          IF why = {} THEN DoneEnd(e.c, e.code, e.lat, e.t, e.succ[e.c], e.lag[e.c]) /\ UNCHANGED <<skip, mvars>> ELSE Reject(why)
+    [] e.ev = "fault" /\ ~skip -> Reject(FaultWhy(e))
     [] e.ev = "state" /\ ~skip ->
          LET why == StateWhy(e) IN
          IF why = {} THEN UNCHANGED <<vars, skip, mvars>> ELSE Reject(why)
